@@ -803,6 +803,37 @@ def gen_schedule(draw, nblocks=None, kinds=None):
 
 
 @st.composite
+def grid_multipliers(draw, n=None):
+    """GRID-section transmissibility multipliers between regions and across faults: MULTNUM / FLUXNUM arrays, MULTREGT
+    with 1..4 records (same-region records, defaulted directions / NNC behaviour / region set in any order), FAULTS +
+    MULTFLT.  All valid for the fixed model; they only change what TransMult holds."""
+    n = n or NX * NY * NZ
+    out = []
+    # (the library refuses a MULTREGT record whose region set is not in the deck: MULTNUM, the default set, always)
+    arrays = ["MULTNUM"] + draw(st.lists(st.sampled_from(["FLUXNUM", "OPERNUM"]), max_size=2, unique=True))
+    for a in arrays:
+        k = draw(st.integers(1, n - 1))
+        out.append("%s\n %d*1 %d*2 /\n" % (a, k, n - k) if draw(st.booleans()) else "%s\n %d*%d /\n" % (a, n, draw(st.integers(1, 3))))
+    for _ in range(draw(st.integers(1, 2))):
+        recs = []
+        for _ in range(draw(st.integers(1, 4))):
+            a = draw(st.sampled_from(["1", "2", "3", "1*"]))
+            b = a if draw(st.integers(0, 2)) == 0 else draw(st.sampled_from(["1", "2", "3", "1*"]))
+            tail = draw(st.sampled_from(["", " XYZ", " X", " 1* NNC", " XY ALL", " Z NONNC M", " 1* 1* F", " XYZ ALL M", " 2* O",
+                                         " XYZ NOAQUNNC"]))
+            if " F" in tail and "FLUXNUM" not in arrays:
+                tail = tail.replace(" F", " M")
+            if tail.endswith(" O") and "OPERNUM" not in arrays:
+                tail = tail[:-2] + " M"
+            recs.append(" %s %s %s%s /\n" % (a, b, fnum(draw(st.sampled_from([0, 0.1, 0.5, 1, 2]))), tail))
+        out.append("MULTREGT\n%s/\n" % "".join(recs))
+    if draw(st.booleans()):
+        out.append("FAULTS\n 'F1' 2 2 1 %d 1 %d X /\n 'F2' 1 %d 3 3 1 %d Y /\n/\n" % (NY, NZ, NX, NZ))
+        out.append("MULTFLT\n 'F%d' %s /\n/\n" % (draw(st.integers(1, 2)), fnum(draw(st.sampled_from([0, 0.01, 0.5, 10])))))
+    return "".join(out)
+
+
+@st.composite
 def gen_static(draw):
     """variations of the static sections that change what the EclipseState holds (output / report configuration,
     run options); every variant is a valid deck for the fixed model"""
@@ -814,6 +845,8 @@ def gen_static(draw):
     for kw in draw(st.lists(st.sampled_from(["INIT\n", "GRIDFILE\n 0 1 /\n", "MINPV\n 0.001 /\n", "PINCH\n 0.01 /\n",
                                              "MAPAXES\n 0 100 0 0 100 0 /\n", "NEWTRAN\n"]), max_size=3, unique=True)):
         grid.append(kw)
+    if draw(st.integers(0, 2)) == 0:
+        grid.append(draw(grid_multipliers()))
     sol = [EQUIL_TEXT]
     if draw(st.booleans()):
         mn = draw(st.lists(st.sampled_from(["FIP", "FIP=1", "FIP=2", "FIP=3", "FIPFOAM=2", "FIPPLY", "FIPSOL", "FIPSURF=2", "FIPHEAT",
